@@ -148,6 +148,11 @@ def run(repo, rep):
     elif thr is None or thr > 1e-11:
         rep.violated('R-BOUND', key, wl, 'the sigma iteration stops at |d sigma| < %s: times b = 6.4e6 m this is looser than 0.1 mm' % thr,
                      expected='threshold <= 1e-11', actual=str(thr))
+    elif cap < 20:
+        # the sigma iteration contracts by about e'^2 / 4 = 2e-3 per pass: five or six passes reach 1e-12; a cap below a few times that
+        # leaves no room (a cap of 3 returns unconverged values for long lines)
+        rep.violated('R-BOUND', key, wl, 'the sigma iteration is capped at %s passes: reaching |d sigma| < %s takes five or six, and the loop has no other exit' % (cap, thr),
+                     expected='a cap of 20 or more', actual=str(cap))
     else:
         rep.holds('R-BOUND', key, wl, 'iteration cap %s, threshold %s rad (%.2g m on the ellipsoid)' % (cap, thr, thr * 6.4e6))
     # rounding
